@@ -6,7 +6,8 @@
 
 use crate::core::rng::Rng;
 use crate::core::{budget, clock, drop_chunks, panic_text, Obs, Tier, Violation, World, WorldInfo};
-use rust_rule_engine::streaming::state::{StateBackend, StateConfig, StateStore};
+use rust_rule_engine::streaming::event::StreamEvent;
+use rust_rule_engine::streaming::state::{StateBackend, StateConfig, StateStore, StatefulOperator};
 use rust_rule_engine::types::Value;
 use rust_rule_engine::verif_hooks::{self, FsDecision, FsOp};
 use serde::{Deserialize, Serialize};
@@ -17,7 +18,83 @@ use std::time::Duration;
 
 const PROP: &str = "C20";
 const CLOCK_BASE_MS: u64 = 1_700_000_000_000;
-const KEYS: [&str; 3] = ["k0", "k1", "k2"];
+/// Key pools (swarm dimension `key_style`): plain; names that need JSON escaping / are empty / are not ASCII;
+/// names that differ only in case or trailing white space; a dotted, a one-letter and a 300-character name.
+fn key_name(style: u8, k: usize) -> String {
+    match style {
+        1 => ["", "a/b\"c\\d", "ключ\n\u{1}é"][k % 3].to_string(),
+        2 => ["key", "KEY", "key "][k % 3].to_string(),
+        3 => match k % 3 {
+            0 => "k".to_string(),
+            1 => "k.0".to_string(),
+            _ => "k".repeat(300),
+        },
+        _ => ["k0", "k1", "k2"][k % 3].to_string(),
+    }
+}
+
+fn bulk_key(i: usize) -> String {
+    format!("bulk{i:05}")
+}
+
+type ProcFn = fn(&mut StateStore, &StreamEvent) -> rust_rule_engine::Result<Option<Value>>;
+
+/// the processing function of the `StatefulOperator` wrapper: an event {k, v} is a put
+fn proc_put(st: &mut StateStore, ev: &StreamEvent) -> rust_rule_engine::Result<Option<Value>> {
+    let k = match ev.data.get("k") {
+        Some(Value::String(s)) => s.clone(),
+        _ => return Ok(None),
+    };
+    let v = ev.data.get("v").cloned().unwrap_or(Value::Null);
+    st.put(k, v)?;
+    Ok(None)
+}
+
+/// The store as the client holds it: directly, or inside a `StatefulOperator` (whose checkpoint/restore delegate)
+enum Holder {
+    Plain(StateStore),
+    Wrapped(StatefulOperator<ProcFn>),
+}
+
+impl Holder {
+    fn st(&self) -> &StateStore {
+        match self {
+            Holder::Plain(s) => s,
+            Holder::Wrapped(o) => o.state(),
+        }
+    }
+    fn st_mut(&mut self) -> &mut StateStore {
+        match self {
+            Holder::Plain(s) => s,
+            Holder::Wrapped(o) => o.state_mut(),
+        }
+    }
+    fn put(&mut self, key: String, v: Value) -> rust_rule_engine::Result<()> {
+        match self {
+            Holder::Plain(s) => s.put(key, v),
+            Holder::Wrapped(o) => {
+                let mut data = HashMap::new();
+                data.insert("k".to_string(), Value::String(key));
+                data.insert("v".to_string(), v);
+                let mut ev = StreamEvent::with_timestamp("put", data, "client", 0);
+                ev.id = "e".to_string();
+                o.process(&ev).map(|_| ())
+            }
+        }
+    }
+    fn checkpoint(&mut self, name: String) -> rust_rule_engine::Result<String> {
+        match self {
+            Holder::Plain(s) => s.checkpoint(name),
+            Holder::Wrapped(o) => o.checkpoint(name),
+        }
+    }
+    fn restore(&mut self, id: &str) -> rust_rule_engine::Result<()> {
+        match self {
+            Holder::Plain(s) => s.restore(id),
+            Holder::Wrapped(o) => o.restore(id),
+        }
+    }
+}
 
 #[derive(Clone, Debug, Serialize, Deserialize, PartialEq)]
 pub enum Val {
@@ -107,6 +184,9 @@ pub enum FaultKind {
     /// every read of the operation returns at most k bytes (legal for read(2): pipes, network file
     /// systems, signals) — multi-byte characters get split across reads
     ShortReads(usize),
+    /// every write of the operation accepts at most k bytes (legal for write(2): pipes, network file systems,
+    /// quotas) — write_all has to loop over the whole file
+    ShortWrites(usize),
 }
 
 #[derive(Clone, Debug, Serialize, Deserialize, PartialEq)]
@@ -123,6 +203,8 @@ pub enum Target {
     /// n-th failed or interrupted attempt
     Broken(usize),
     Bogus,
+    /// whatever `latest_checkpoint()` names
+    Latest,
 }
 
 #[derive(Clone, Debug, Serialize, Deserialize, PartialEq)]
@@ -138,6 +220,12 @@ pub enum Op {
     StepBack(u64),
     Read,
     Restart,
+    /// `StateStore::clear()`
+    Clear,
+    /// n further puts under keys of their own (`bulk00000`…): kind 0 small integers, kind 1 one 40-character
+    /// text each, kind 2 a single key holding a text of n × 16 bytes with multi-byte characters. Makes the
+    /// checkpoint file longer than the 4 KiB / 8 KiB / 64 KiB buffers that I/O layers work in
+    Bulk(usize, u8),
 }
 
 #[derive(Clone, Debug, Serialize, Deserialize)]
@@ -151,6 +239,15 @@ pub struct StoreTrace {
     /// configuration fields the pinned code never reads; an explicit checkpoint() must behave the same
     #[serde(default)]
     pub auto: Option<u64>,
+    /// which key pool the three keys come from (see `key_name`)
+    #[serde(default)]
+    pub key_style: u8,
+    /// checkpoint names: 0 unique per operation, 1 the same name every time, 2 a name with path separators
+    #[serde(default)]
+    pub name_style: u8,
+    /// the client holds the store inside a `StatefulOperator` (puts go through `process`)
+    #[serde(default)]
+    pub wrapped: bool,
     pub ops: Vec<Op>,
     pub tick_pattern: Vec<u8>,
     /// Some(i): sweep every crash point (every shim call, every byte offset of the file) of the
@@ -177,6 +274,7 @@ struct DiskState {
 
 thread_local! {
     static DISK: RefCell<DiskState> = RefCell::new(DiskState::default());
+    static KEY_STYLE: std::cell::Cell<u8> = std::cell::Cell::new(0);
 }
 
 fn disk_begin(plan: Option<Fault>) {
@@ -218,7 +316,16 @@ fn install_disk() {
                 d.fired.push("fault.short_read");
                 return FsDecision::Short(k);
             }
-            let fire = matches!(&d.plan, Some(f) if f.at_call == idx && !matches!(f.kind, FaultKind::ShortReads(_)));
+            if let (Some(Fault { kind: FaultKind::ShortWrites(k), .. }), FsOp::Write { len, .. }) = (&d.plan, op) {
+                if *len > 0 {
+                    let k = (*k).clamp(1, *len);
+                    if k < *len {
+                        d.fired.push("fault.short_writes_throughout");
+                    }
+                    return FsDecision::Short(k);
+                }
+            }
+            let fire = matches!(&d.plan, Some(f) if f.at_call == idx && !matches!(f.kind, FaultKind::ShortReads(_) | FaultKind::ShortWrites(_)));
             if !fire {
                 return FsDecision::Proceed;
             }
@@ -293,7 +400,7 @@ fn install_disk() {
                         std::panic::panic_any(SimCrash);
                     }
                 },
-                FaultKind::ShortReads(_) => FsDecision::Proceed, // handled above, for every read
+                FaultKind::ShortReads(_) | FaultKind::ShortWrites(_) => FsDecision::Proceed, // handled above, for every read / write
             }
         })
     })));
@@ -414,7 +521,8 @@ fn observe(store: &StateStore, extra: &[String]) -> Seen {
     let len = store.len();
     let mut gets = BTreeMap::new();
     let mut contains = BTreeMap::new();
-    let mut universe: BTreeSet<String> = KEYS.iter().map(|s| s.to_string()).collect();
+    let style = KEY_STYLE.with(|c| c.get());
+    let mut universe: BTreeSet<String> = (0..3).map(|k| key_name(style, k)).collect();
     universe.extend(keys.iter().cloned());
     universe.extend(extra.iter().cloned());
     for k in &universe {
@@ -548,6 +656,14 @@ fn probe_all(dir: &PathBuf, m: &Model, step: usize, obs: &mut Obs, after: &str) 
     Ok(())
 }
 
+fn hold(s: StateStore, wrapped: bool) -> Holder {
+    if wrapped {
+        Holder::Wrapped(StatefulOperator::new(s, proc_put as ProcFn))
+    } else {
+        Holder::Plain(s)
+    }
+}
+
 fn attempt_id(log: &[FsOp]) -> Option<String> {
     for op in log {
         match op {
@@ -562,7 +678,7 @@ fn attempt_id(log: &[FsOp]) -> Option<String> {
 struct Exec<'a> {
     t: &'a StoreTrace,
     dir: PathBuf,
-    store: Option<StateStore>,
+    store: Option<Holder>,
     m: Model,
     /// record the shim calls and write sizes of the checkpoint at this op index
     record_at: Option<usize>,
@@ -573,7 +689,7 @@ struct Exec<'a> {
 impl<'a> Exec<'a> {
     fn restart(&mut self, obs: &mut Obs) {
         self.store = None;
-        self.store = Some(new_store(&self.dir, self.t.max_checkpoints, self.t.default_ttl, self.t.auto));
+        self.store = Some(hold(new_store(&self.dir, self.t.max_checkpoints, self.t.default_ttl, self.t.auto), self.t.wrapped));
         self.m.live.clear();
         self.m.incarnation.clear();
         self.m.restarts += 1;
@@ -583,7 +699,7 @@ impl<'a> Exec<'a> {
     /// Reads are not C20's business: where the visible state disagrees with the model (it never
     /// does on the pinned tree) the model adopts the observation and the disagreement is counted.
     fn resync(&mut self, obs: &mut Obs) {
-        let seen = observe(self.store.as_ref().unwrap(), &[]);
+        let seen = observe(self.store.as_ref().unwrap().st(), &[]);
         let snap = snapshot_of(&self.m, seen.tmin, seen.tmax);
         if check_against(&seen, &snap, "x", "x", "x", 0).is_ok() {
             return;
@@ -609,7 +725,7 @@ impl<'a> Exec<'a> {
     /// restore.atomic: a failed restore leaves the visible state as it was (keys whose expiry is
     /// undecided at these instants excepted)
     fn check_unchanged(&self, before: &Seen, step: usize, id: &str) -> Result<(), Violation> {
-        let after = observe(self.store.as_ref().unwrap(), &[]);
+        let after = observe(self.store.as_ref().unwrap().st(), &[]);
         let lo = before.tmin.min(after.tmin);
         let hi = before.tmax.max(after.tmax);
         for (k, b) in &before.gets {
@@ -645,10 +761,10 @@ impl<'a> Exec<'a> {
             debug_assert!(store_present);
             match op {
                 Op::Put(k, v) | Op::PutTtl(k, v, _) => {
-                    let key = KEYS[*k % 3].to_string();
+                    let key = key_name(t.key_style, *k);
                     clock::begin_call();
                     let r = match op {
-                        Op::PutTtl(_, _, ttl) => self.store.as_mut().unwrap().put_with_ttl(key.clone(), v.to_value(), Duration::from_millis(*ttl)),
+                        Op::PutTtl(_, _, ttl) => self.store.as_mut().unwrap().st_mut().put_with_ttl(key.clone(), v.to_value(), Duration::from_millis(*ttl)),
                         _ => self.store.as_mut().unwrap().put(key.clone(), v.to_value()),
                     };
                     let reads = clock::shown_list();
@@ -675,9 +791,9 @@ impl<'a> Exec<'a> {
                     self.m.live.insert(key, Entry { value: v.to_value(), exp_lo: lo, exp_hi: hi, ttl, maybe_removed: false });
                 }
                 Op::Update(k, v) => {
-                    let key = KEYS[*k % 3].to_string();
+                    let key = key_name(t.key_style, *k);
                     clock::begin_call();
-                    let r = self.store.as_mut().unwrap().update(&key, v.to_value());
+                    let r = self.store.as_mut().unwrap().st_mut().update(&key, v.to_value());
                     let reads = clock::shown_list();
                     let now = clock::now_ms();
                     let (tmin, tmax) = (reads.iter().min().cloned().unwrap_or(now), reads.iter().max().cloned().unwrap_or(now).max(now));
@@ -702,13 +818,45 @@ impl<'a> Exec<'a> {
                     }
                 }
                 Op::Delete(k) => {
-                    let key = KEYS[*k % 3].to_string();
-                    let _ = self.store.as_mut().unwrap().delete(&key);
+                    let key = key_name(t.key_style, *k);
+                    let _ = self.store.as_mut().unwrap().st_mut().delete(&key);
                     self.m.live.remove(&key);
+                }
+                Op::Clear => {
+                    let r = self.store.as_mut().unwrap().st_mut().clear();
+                    if r.is_err() {
+                        return Err(viol("harness.model-sync", "StateStore::clear", "clear-failed", format!("clear failed: {r:?}"), step));
+                    }
+                    self.m.live.clear();
+                    obs.count("probe.store_cleared");
+                }
+                Op::Bulk(n, kind) => {
+                    clock::begin_call();
+                    let mut items: Vec<(String, Value)> = Vec::new();
+                    match kind {
+                        0 => items.extend((0..*n).map(|i| (bulk_key(i), Value::Integer(i as i64)))),
+                        1 => items.extend((0..*n).map(|i| (bulk_key(i), Value::String(format!("{i:05}-αβγ-\"q\"-{}", "x".repeat(24)))))),
+                        _ => items.push((bulk_key(0), Value::String((0..*n).map(|i| format!("{i:06}é漢\n\\\"·")).collect::<String>()))),
+                    }
+                    for (key, v) in items {
+                        let r = self.store.as_mut().unwrap().put(key.clone(), v.clone());
+                        if r.is_err() {
+                            return Err(viol("harness.model-sync", "StateStore::put", "put-failed", format!("put failed: {r:?}"), step));
+                        }
+                        let reads = clock::shown_list();
+                        let now = clock::now_ms();
+                        let (tmin, tmax) = (reads.iter().min().cloned().unwrap_or(now), reads.iter().max().cloned().unwrap_or(now).max(now));
+                        let (lo, hi) = match self.t.default_ttl {
+                            Some(ttl) => (Some(tmin + ttl), Some(tmax + ttl)),
+                            None => (None, None),
+                        };
+                        self.m.live.insert(key, Entry { value: v, exp_lo: lo, exp_hi: hi, ttl: self.t.default_ttl, maybe_removed: false });
+                    }
+                    obs.count("probe.bulk_state");
                 }
                 Op::Cleanup => {
                     clock::begin_call();
-                    let n = self.store.as_mut().unwrap().cleanup_expired();
+                    let n = self.store.as_mut().unwrap().st_mut().cleanup_expired();
                     let reads = clock::shown_list();
                     let now = clock::now_ms();
                     let (tmin, tmax) = (reads.iter().min().cloned().unwrap_or(now), reads.iter().max().cloned().unwrap_or(now).max(now));
@@ -769,7 +917,7 @@ impl<'a> Exec<'a> {
                 }
             }
             // cheap invariant after every step: the listing agrees with the retention list
-            let listed: Vec<String> = self.store.as_ref().unwrap().list_checkpoints().iter().map(|c| c.id.clone()).collect();
+            let listed: Vec<String> = self.store.as_ref().unwrap().st().list_checkpoints().iter().map(|c| c.id.clone()).collect();
             if listed != self.m.incarnation {
                 return Err(viol("retention.listed", "StateStore::list_checkpoints", "listing-differs", format!("list_checkpoints() = {listed:?}, expected {:?}", self.m.incarnation), step));
             }
@@ -784,7 +932,12 @@ impl<'a> Exec<'a> {
         disk_begin(fault);
         clock::begin_call();
         let store = self.store.as_mut().unwrap();
-        let r = budget::with_budget(10_000, || store.checkpoint(format!("c{step}")));
+        let name = match self.t.name_style {
+            1 => "periodic".to_string(),
+            2 => format!("../a/b c{}", step % 2),
+            _ => format!("c{step}"),
+        };
+        let r = budget::with_budget(10_000, || store.checkpoint(name));
         let reads = clock::shown_list();
         let d = disk_end();
         for f in &d.fired {
@@ -919,14 +1072,28 @@ impl<'a> Exec<'a> {
             Target::Broken(n) if !broken.is_empty() => Some(broken[n % broken.len()]),
             _ => None,
         };
-        let id = pick.map(|i| self.m.ckpts[i].id.clone()).unwrap_or_else(|| "checkpoint_1".to_string());
+        let latest: Option<String> = if target == Target::Latest {
+            let l = self.store.as_ref().unwrap().st().latest_checkpoint().map(|c| c.id);
+            // which checkpoint counts as the latest is not C20's business: whatever id comes back is restored
+            // and judged like any other id
+            if l != self.m.incarnation.last().cloned() {
+                obs.count("probe.latest_checkpoint_is_not_the_last_acknowledged");
+            }
+            if l.is_some() {
+                obs.count("probe.restore_of_latest_checkpoint");
+            }
+            l
+        } else {
+            None
+        };
+        let id = latest.or_else(|| pick.map(|i| self.m.ckpts[i].id.clone())).unwrap_or_else(|| "checkpoint_1".to_string());
         // when an id was used by several attempts, the acknowledged one is what the id denotes
         let rec: Option<Ckpt> = self.m.ckpts.iter().filter(|c| c.id == id).max_by_key(|c| (c.status == Status::Acked, c.op_index)).cloned();
         self.resync(obs);
-        let seen_before = observe(self.store.as_ref().unwrap(), &[]);
+        let seen_before = observe(self.store.as_ref().unwrap().st(), &[]);
         disk_begin(fault);
         let store = self.store.as_mut().unwrap();
-        let r = budget::with_budget(10_000, || store.restore(&id));
+        let r = budget::with_budget(20_000, || store.restore(&id));
         let d = disk_end();
         for f in &d.fired {
             obs.count(f);
@@ -940,7 +1107,7 @@ impl<'a> Exec<'a> {
                 probe_all(&self.dir, &self.m, step, obs, "crash")?;
             }
             Ok(Ok(())) => {
-                let seen = observe(self.store.as_ref().unwrap(), &[]);
+                let seen = observe(self.store.as_ref().unwrap().st(), &[]);
                 match &rec {
                     None => {
                         return Err(viol("restore.exact", "StateStore::restore", "restore-of-unknown-id-succeeded", format!("restore({id}) succeeded although no checkpoint attempt ever used that id"), step));
@@ -991,12 +1158,13 @@ fn run_once(t: &StoreTrace, obs: &mut Obs, override_fault: Option<(usize, Fault)
     let dir = fresh_dir();
     clock::install(CLOCK_BASE_MS);
     clock::set_tick_pattern(t.tick_pattern.clone());
+    KEY_STYLE.with(|c| c.set(t.key_style));
     install_disk();
     disk_begin(None);
     let mut ex = Exec {
         t,
         dir: dir.clone(),
-        store: Some(new_store(&dir, t.max_checkpoints, t.default_ttl, t.auto)),
+        store: Some(hold(new_store(&dir, t.max_checkpoints, t.default_ttl, t.auto), t.wrapped)),
         m: Model { live: BTreeMap::new(), ckpts: Vec::new(), incarnation: Vec::new(), restarts: 0 },
         record_at,
         record_now: false,
@@ -1014,6 +1182,34 @@ fn run_once(t: &StoreTrace, obs: &mut Obs, override_fault: Option<(usize, Fault)
         obs.nontrivial |= acked >= 2 || (acked >= 1 && broken >= 1);
     }
     (r, sweep)
+}
+
+/// Byte offsets at which a write of `len` bytes is interrupted in a sweep: every offset of a file of up to 600
+/// bytes; of a longer one the two ends, the neighbourhood of 4096 × {1,2,3,4,8,16} and of 65536, and 12 seeded
+/// offsets
+fn sweep_offsets(len: usize, seed: u64) -> Vec<usize> {
+    if len <= 600 {
+        return (0..=len).collect();
+    }
+    let mut v: BTreeSet<usize> = [0usize, 1, 2, len - 2, len - 1, len].into_iter().collect();
+    for m in [1usize, 2, 3, 4, 8, 16] {
+        for d in [-1i64, 0, 1] {
+            let o = (m * 4096) as i64 + d;
+            if o > 0 && (o as usize) < len {
+                v.insert(o as usize);
+            }
+        }
+    }
+    for o in [65535usize, 65536, 65537] {
+        if o < len {
+            v.insert(o);
+        }
+    }
+    let mut r = Rng::new(seed ^ 0x5eed_0ff5);
+    for _ in 0..12 {
+        v.insert(r.usize(len + 1));
+    }
+    v.into_iter().collect()
 }
 
 fn gen_val(rng: &mut Rng, depth: usize) -> Val {
@@ -1048,7 +1244,8 @@ fn gen_fault(rng: &mut Rng, for_restore: bool) -> Fault {
             },
         };
     }
-    let kind = match rng.usize(10) {
+    let kind = match rng.usize(11) {
+        10 => FaultKind::ShortWrites(*rng.pick(&[1usize, 3, 16])),
         0 | 1 => FaultKind::Err(ek(rng)),
         2 => FaultKind::ShortWrite(*rng.pick(&[1usize, 2, 7, 50])),
         3 => FaultKind::ShortWriteThenErr(*rng.pick(&[1usize, 2, 7, 50, 10_000]), ek(rng)),
@@ -1148,11 +1345,18 @@ impl World for StoreWorld {
                     }
                 }
                 2 => Op::Update(rng.usize(3), gen_val(rng, 0)),
-                3 => Op::Delete(rng.usize(3)),
+                3 => {
+                    if rng.chance(1, 5) {
+                        Op::Clear
+                    } else {
+                        Op::Delete(rng.usize(3))
+                    }
+                }
                 4 => Op::Cleanup,
                 5 => Op::Checkpoint(if faults_on && rng.chance(2, 5) { Some(gen_fault(rng, false)) } else { None }),
                 6 => Op::Restore(
-                    match rng.usize(6) {
+                    match rng.usize(7) {
+                        6 => Target::Latest,
                         0 => Target::Bogus,
                         1 | 2 => Target::Broken(rng.usize(4)),
                         _ => Target::Acked(rng.usize(6)),
@@ -1222,10 +1426,41 @@ impl World for StoreWorld {
         }
         // configuration swarm: one run in five switches auto_checkpoint on, with an interval from 0 ms to a minute
         let auto = if rng.chance(1, 5) { Some(*rng.pick(&[0u64, 1, 5, 60_000])) } else { None };
+        // further swarm dimensions (round 15): the key pool, the checkpoint names, the StatefulOperator wrapper
+        let key_style = if rng.chance(1, 2) { 0 } else { 1 + rng.usize(3) as u8 };
+        let name_style = *rng.pick(&[0u8, 0, 0, 0, 1, 2]);
+        let wrapped = rng.chance(1, 3);
         if storm {
-            return StoreTrace { hash_seed, max_checkpoints, default_ttl, auto, ops, tick_pattern, sweep_op: None };
+            return StoreTrace { hash_seed, max_checkpoints, default_ttl, auto, key_style, name_style, wrapped, ops, tick_pattern, sweep_op: None };
         }
-        StoreTrace { hash_seed, max_checkpoints, default_ttl, auto, ops, tick_pattern, sweep_op }
+        // one run in 600: bulk state — the checkpoint file is 2 KB … 100 KB instead of a few hundred bytes, and
+        // the faults work in the units that I/O layers work in
+        let mut sweep_op = sweep_op;
+        if rng.chance(1, 1500) {
+            let kind = rng.usize(3) as u8;
+            let n = if kind == 2 { *rng.pick(&[300usize, 1200, 5000]) } else { *rng.pick(&[150usize, 700, 700, 2000]) };
+            if tier == Tier::Thorough && !rng.chance(1, 3) {
+                sweep_op = None;
+            }
+            ops.insert(rng.usize(2).min(ops.len()), Op::Bulk(n, kind));
+            sweep_op = sweep_op.map(|_| 0).and_then(|_| {
+                let ck: Vec<usize> = ops.iter().enumerate().filter(|(_, o)| matches!(o, Op::Checkpoint(_))).map(|(i, _)| i).collect();
+                if ck.is_empty() { None } else { Some(*rng.pick(&ck)) }
+            });
+            for o in ops.iter_mut() {
+                if let Op::Checkpoint(Some(f)) | Op::Restore(_, Some(f)) = o {
+                    f.kind = match f.kind.clone() {
+                        FaultKind::ShortWrite(k) => FaultKind::ShortWrite(k * 585),
+                        FaultKind::ShortWriteThenErr(k, e) => FaultKind::ShortWriteThenErr(k * 585, e),
+                        FaultKind::CrashAfterBytes(k) => FaultKind::CrashAfterBytes(*rng.pick(&[k, 4095, 4096, 4097, 8192, 16384, 65536, 70_001])),
+                        FaultKind::ShortReads(k) => FaultKind::ShortReads(*rng.pick(&[509usize, 4096, 4097, 8191, 65536]) + k % 2),
+                        FaultKind::ShortWrites(k) => FaultKind::ShortWrites(*rng.pick(&[512usize, 4096, 8192, 65536]) + k % 2),
+                        other => other,
+                    };
+                }
+            }
+        }
+        StoreTrace { hash_seed, max_checkpoints, default_ttl, auto, key_style, name_style, wrapped, ops, tick_pattern, sweep_op }
     }
 
     fn hash_seed(&self, t: &StoreTrace) -> u64 {
@@ -1285,7 +1520,7 @@ impl World for StoreWorld {
                         FsOp::Write { .. } => {
                             let len = write_lens.get(write_seen).cloned().unwrap_or(0);
                             write_seen += 1;
-                            for k in 0..=len {
+                            for k in sweep_offsets(len, t.hash_seed) {
                                 points.push(Fault { at_call: ci, kind: FaultKind::CrashAfterBytes(k) });
                             }
                         }
@@ -1365,6 +1600,17 @@ impl World for StoreWorld {
                     alts.push(Op::Advance(d - 1));
                 }
                 Op::StepBack(d) if *d > 1 => alts.push(Op::StepBack(d - 1)),
+                Op::Bulk(n, k) => {
+                    if *n > 1 {
+                        alts.push(Op::Bulk(n / 2, *k));
+                        alts.push(Op::Bulk(n - 1, *k));
+                    }
+                    if *k != 0 {
+                        alts.push(Op::Bulk(*n, 0));
+                    }
+                }
+                Op::Clear => alts.push(Op::Delete(0)),
+                Op::Restore(Target::Latest, None) => alts.push(Op::Restore(Target::Acked(0), None)),
                 _ => {}
             }
             for a in alts {
@@ -1378,6 +1624,18 @@ impl World for StoreWorld {
         }
         if t.default_ttl.is_some() {
             out.push(StoreTrace { default_ttl: None, ..t.clone() });
+        }
+        if t.key_style != 0 {
+            out.push(StoreTrace { key_style: 0, ..t.clone() });
+        }
+        if t.name_style != 0 {
+            out.push(StoreTrace { name_style: 0, ..t.clone() });
+        }
+        if t.wrapped {
+            out.push(StoreTrace { wrapped: false, ..t.clone() });
+        }
+        if t.auto.is_some() {
+            out.push(StoreTrace { auto: None, ..t.clone() });
         }
         if t.hash_seed != 1 {
             out.push(StoreTrace { hash_seed: 1, ..t.clone() });
